@@ -342,7 +342,8 @@ func (admHarness) Run(spec any) (res verifsim.RunResult) {
 					case "jump":
 						time.Sleep(11 * time.Minute)
 						snd.cleanup()
-						mQueue = nil // every receiver that is not transferring is older than the TTL now
+						// (the model's queue is untouched: a receiver that waits for a slot has
+						// not left, however long it has been waiting)
 					}
 					mDispatch()
 					when := fmt.Sprintf("after event %d (%s %s)", oi, op.K, peer)
